@@ -532,6 +532,7 @@ func genFragment(r *runner.Rand, o Options, h *History, st map[uint32]*trackStat
 	}
 	style := r.Intn(3) // 0 blocks, 1 alternate, 2 random
 	cur := 0
+	otherVisited := false
 	newSample := func(id uint32) Sample {
 		p := plans[id]
 		size, dur, flags, cto := p.sample(r, o, count[id])
@@ -563,6 +564,9 @@ func genFragment(r *runner.Rand, o Options, h *History, st map[uint32]*trackStat
 			run = n - made
 		}
 		cur++
+		if id != fs.Tracks[0] {
+			otherVisited = true
+		}
 		// choose the API call(s) for this run
 		for run > 0 {
 			op := Op{Track: id}
@@ -580,6 +584,15 @@ func genFragment(r *runner.Rand, o Options, h *History, st map[uint32]*trackStat
 					case 0:
 						op.Kind = OpAddSample
 					case 1:
+						op.Kind = OpAddSamples
+						k = 1 + r.Intn(run)
+					}
+				} else if id == fs.Tracks[0] && count[id] > 0 && !otherVisited && r.Chance(1, 3) {
+					// the single-trun calls work on the first traf's first trun: legal on a multi-track
+					// fragment while that run exists and is still the last one written
+					if r.Bool() {
+						op.Kind = OpAddSample
+					} else {
 						op.Kind = OpAddSamples
 						k = 1 + r.Intn(run)
 					}
